@@ -42,6 +42,19 @@ def make_specs(ctx: Ctx, n):
         plan = [{"op": "solve", "jit": False, "record_ccv": i % 5 == 0}, {"op": "solve", "jit": True},
                 {"op": "rel-solve", "a": 1, "b": 2, "what": "jit-equals-eager"}]
         specs.append(mk_spec(i, m, ["solve"], plan, label=label + ("; float64" if i % 5 == 4 else ""), x64=i % 5 == 4))
+    # filter-restricted states with a STOCHASTIC (one-hot) transition: the nodes of probability zero include states that the
+    # filter excludes; they contribute nothing to the expectation
+    from .. import laws
+
+    r2 = ctx.rng("stochastic-restricted-state")
+    k = 0
+    while k < max(6, n // 15):
+        m = laws.deterministic_to_degenerate(gen.rand_model(r2, {"max_cells": 600, "p_z": 0.0, "T": [2, 3], "p_r": 1.0, "p_per_filter": 0.5,
+                                                                 "p_h_stoch": 0.0, "p_e": 0.0}))
+        if m is not None:
+            m["meta"]["feat"]["stochastic_restricted_state"] = True
+            specs.append(mk_spec(len(specs), m, ["solve"], [{"op": "solve", "jit": bool(k % 2)}], label="restricted state with a stochastic transition"))
+            k += 1
     return specs
 
 
